@@ -39,7 +39,12 @@ RULE = ("cases are drawn from random.Random(VERIF_SEED). Scalar handles: every o
         "matrices, subscript matrix, value / weight / correction vectors) in Fortran-contiguous, C-contiguous, permuted-axes-view "
         "and strided-view layouts (1-d: contiguous, strided, negative stride) with non-constant, non-symmetric values and 0/1 "
         "masks on the non-cubical shapes (2,3), (3,1,2), (2,3,2), all layout combinations enumerated, also through "
-        "gcp_opt(LBFGSB, mask = ndarray | tensor) with an optimiser stand-in that evaluates once; and a malformed stream (mismatched shapes, no handle, "
+        "gcp_opt(LBFGSB, mask = ndarray | tensor) with an optimiser stand-in that evaluates once; the sampled estimator with sample "
+        "weights ones / integers of both signs / halves / 0-1 / all zero / all negative, repeated subscripts (adjacent and far apart), "
+        "correction ranges none / empty / partial / full / with repeated positions, models with unit and non-unit weights, every "
+        "gradient entry of every mode against the defining sums and the specification executed in Lean; 0/1 masks keeping all / "
+        "some / one / no entries as float / int / bool arrays in every layout, models with non-unit weights, dense and sparse data, "
+        "also with five real built-in pairs in doubles; and a malformed stream (mismatched shapes, no handle, "
         "out-of-range subscripts). A case is non-trivial when the implementation accepts it and at least one data / "
         "model entry is non-zero; distinct = distinct case hash")
 ASSUMPTIONS = [
@@ -48,11 +53,17 @@ ASSUMPTIONS = [
     "evaluate/estimate are modelled where NumPy combines arrays entry by entry: data, weights and model of one shape "
     "(broadcastable mismatches are not generated); ktensor.full enters as the denotation of the Kruskal tensor (C01) and "
     "tensor.mttkrps as the defining sum (C02) — both are nevertheless exercised here on the real code",
-    "estimate is modelled on the path without re-normalisation (lambda_check False or unit model weights)",
+    "estimate is modelled on the path without re-normalisation (lambda_check False or unit model weights); there it never reads "
+    "the model's weight vector (C12_estimate_ignores_model_weights), so its theorems are stated for unit model weights",
+    "at a switching point of a loss as it is written (|·| / sign / sqrt at 0, a comparison at equality) the symbolic derivative "
+    "of the generated expression is not compared; the gradient handle is compared with both one-sided difference quotients of "
+    "the Python loss there (the theorems cover these points: Huber kink, closed form of a stabilised softplus)",
     "finite differences (5-point, relative step 1e-3) are only an independent second opinion; the decisive comparison is "
     "gradient handle vs the verified symbolic derivative of the translated loss",
 ]
-TRUSTED_EXTRA = ["harness/translate/gen_handles.py: reading of ~15 Python AST node kinds (cross-checked on a grid each run)"]
+TRUSTED_EXTRA = ["harness/translate/gen_handles.py: reading of ~25 Python AST node kinds / NumPy functions and the symbolic "
+                 "execution of fg_setup.setup (cross-checked on a grid each run: generated table cells vs the callables setup "
+                 "returns; tools/handles_rewrites_selftest.py)"]
 EXHAUSTIVE = {"quick": False, "thorough": False}
 
 
@@ -94,15 +105,33 @@ def grad_name(obj):
     return obj.lower() + "_grad"
 
 
+def handle_param(fn):
+    """name and kind of the extra parameter of a handle (third argument, positional or keyword-only), or None"""
+    ps = list(inspect.signature(fn).parameters.values())
+    if len(ps) == 3:
+        return ps[2]
+    return None
+
+
 def has_param(fn) -> bool:
-    return len(inspect.signature(fn).parameters) == 3
+    return handle_param(fn) is not None
+
+
+def call_handle(fn, xs, ms, p):
+    """handle(data, model[, parameter]) whatever the spelling of the parameter in the signature"""
+    hp = handle_param(fn)
+    if hp is None:
+        return fn(xs, ms)
+    if hp.kind is inspect.Parameter.KEYWORD_ONLY:
+        return fn(xs, ms, **{hp.name: p})
+    return fn(xs, ms, p)
 
 
 def py_handle(name, x, p, m):
     fn = getattr(handles, name)
     xs, ms = np.array([float(x)]), np.array([float(m)])
     with np.errstate(all="ignore"):
-        out = fn(xs, ms, float(p)) if has_param(fn) else fn(xs, ms)
+        out = call_handle(fn, xs, ms, float(p))
     return float(np.asarray(out, dtype=float).reshape(-1)[0])
 
 
@@ -125,9 +154,18 @@ def x_points(rng, obj, n_rand):
 
 
 def expr_requests(items):
-    """items: (name, deriv, x, p, m) -> one gcp_expr request each"""
-    return [{"op": "gcp_expr", "name": n, "deriv": d,
-             "pts": [[fbits(x), fbits(0.0 if p is None else p), fbits(m)]]} for (n, d, x, p, m) in items]
+    """items: (name, deriv, x, p, m) -> one gcp_expr request each; `name` is a Python handle name or a cell of
+    the selection table ("@fn:OBJECTIVE" / "@grad:OBJECTIVE": what fg_setup.setup returns, however wrapped)"""
+    out = []
+    for (n, d, x, p, m) in items:
+        r = {"op": "gcp_expr", "deriv": d, "pts": [[fbits(x), fbits(0.0 if p is None else p), fbits(m)]]}
+        if n.startswith("@"):
+            which, obj = n[1:].split(":")
+            r["obj"], r["which"] = obj, which
+        else:
+            r["name"] = n
+        out.append(r)
+    return out
 
 
 def same_double(a, b, tol):
@@ -219,27 +257,25 @@ class DerivativeGrid(Family):
             warnings.simplefilter("ignore")
             return fg_setup.setup(Objectives[obj], None, p)
 
-    @staticmethod
-    def _base_name(h):
-        return (h.func if isinstance(h, functools.partial) else h).__name__
-
     def evaluate(self, cases):
-        # the pair under test is whatever fg_setup.setup returns for the objective
+        # the pair under test is whatever fg_setup.setup returns for the objective (the generated selection table
+        # has one cell per returned handle, whether the source wraps it in partial, a lambda or nothing)
         setups = {}
         for c in cases:
             key = (c["obj"], c["p"])
             if key not in setups:
                 setups[key] = call(self._setup, c["obj"], c["p"])
+        table = {r["objective"]: r for r in drive([{"op": "gcp_table"}])[0]}
         reqs, names = [], []
         for c in cases:
-            st = setups[(c["obj"], c["p"])]
-            if "ok" in st:
-                ln, gn = self._base_name(st["ok"][0]), self._base_name(st["ok"][1])
-            else:
-                ln, gn = loss_name(c["obj"]), grad_name(c["obj"])
-            names.append((ln, gn))
-            reqs += expr_requests([(ln, True, c["x"], c["p"], c["m"]), (gn, False, c["x"], c["p"], c["m"])])
-        models = drive(reqs)
+            row = table.get(c["obj"], {})
+            names.append((row.get("fn") or loss_name(c["obj"]), row.get("grad") or grad_name(c["obj"])))
+            reqs += expr_requests([("@fn:" + c["obj"], True, c["x"], c["p"], c["m"]),
+                                   ("@grad:" + c["obj"], False, c["x"], c["p"], c["m"]),
+                                   ("@fn:" + c["obj"], False, c["x"], c["p"], c["m"])])
+        models3 = drive(reqs)
+        models = [mo for j, mo in enumerate(models3) if j % 3 != 2]
+        cells = models3[2::3]
         out = []
         for i, c in enumerate(cases):
             obj, x, p, m = c["obj"], c["x"], c["p"], c["m"]
@@ -257,12 +293,16 @@ class DerivativeGrid(Family):
                 continue
             d, magd = unbits(models[2 * i][0][0]), unbits(models[2 * i][0][1])
             magg = unbits(models[2 * i + 1][0][1])
+            # a switching point of the generated loss (|·| / sign at 0, a comparison at equality): the symbolic
+            # derivative need not be the derivative there; one-sided difference quotients decide instead
+            on_kink = len(cells[i][0]) > 2 and bool(cells[i][0][2])
             fn, gr, lb = st["ok"]
 
             def run():
                 xs = np.array([float(x)])
                 with np.errstate(all="ignore"):
                     g = float(np.asarray(gr(xs, np.array([float(m)])), dtype=float).reshape(-1)[0])
+                    f0 = float(np.asarray(fn(xs, np.array([float(m)])), dtype=float).reshape(-1)[0])
 
                     def f(mm):
                         return float(np.asarray(fn(xs, np.array([float(mm)])), dtype=float).reshape(-1)[0])
@@ -278,7 +318,16 @@ class DerivativeGrid(Family):
                         fd_tol = 1e-6 * (1 + abs(g)) + 1e-14 * max(abs(v) for v in vals) / h
                     else:
                         fd_tol = None
-                return {"g": g, "fd": fd, "fd_tol": fd_tol, "lb": float(lb)}
+                    sides = []
+                    if on_kink:
+                        hk = 1e-4 * max(1.0, abs(m))
+                        if lower is None or m - lower > 2 * hk:
+                            vl = [f0, f(m - hk), f(m - 2 * hk)]
+                            sides.append(("left", (3 * vl[0] - 4 * vl[1] + vl[2]) / (2 * hk), vl))
+                        vr = [f0, f(m + hk), f(m + 2 * hk)]
+                        sides.append(("right", (-3 * vr[0] + 4 * vr[1] - vr[2]) / (2 * hk), vr))
+                        sides = [(nm, q, 1e-5 * (1 + abs(g)) + 1e-13 * max(abs(v) for v in vs) / hk) for nm, q, vs in sides]
+                return {"g": g, "f": f0, "fd": fd, "fd_tol": fd_tol, "lb": float(lb), "sides": sides}
 
             impl = call(run)
             if "ok" not in impl:
@@ -292,11 +341,32 @@ class DerivativeGrid(Family):
                                    r["lb"], lower, lower, tags))
                 continue
             tol = 1e-9 * ((magd if math.isfinite(magd) else abs(d)) + (magg if math.isfinite(magg) else abs(g))) + 1e-300
+            # the generated table cells are the functions setup returned (translator fidelity, wrappers included)
+            cf, magf = unbits(cells[i][0][0]), unbits(cells[i][0][1])
+            cg = unbits(models[2 * i + 1][0][0])
+            if not same_double(r["f"], cf, 1e-12 * (abs(magf) if math.isfinite(magf) else abs(cf)) + 1e-300) or \
+                    not same_double(g, cg, 1e-12 * (abs(magg) if math.isfinite(magg) else abs(cg)) + 1e-300):
+                out.append(Verdict("corr", f"{obj}: what fg_setup.setup returns evaluates to loss {r['f']!r} / gradient "
+                                           f"{g!r}, the generated table cells {ln} / {gn} to {cf!r} / {cg!r} at data={x} "
+                                           f"param={p} model={m}", [repr(r["f"]), repr(g)], [repr(cf), repr(cg)], None, tags))
+                continue
             kind = "fd" if r["fd"] is not None else "nofd"
             if obj == "HUBER":
                 kind += ":kink" if abs(x - m) == p else (":in" if abs(x - m) < p else ":out")
             tags.append(kind)
-            if not same_double(g, d, tol):
+            bad_side = next(((nm, q) for nm, q, t in r["sides"] if not same_double(g, q, t)), None)
+            if on_kink:
+                tags.append("switching-point")
+            if on_kink and bad_side is not None:
+                out.append(Verdict("violation",
+                                   f"{obj}: gradient handle {gn} returns {g!r} but the {bad_side[0]} difference quotient of the "
+                                   f"Python loss {ln} is {bad_side[1]!r} at the switching point data={x} param={p} model={m}",
+                                   repr(g), repr(d), repr(bad_side[1]), tags))
+            elif on_kink and not same_double(g, d, tol):
+                # the piecewise symbolic derivative is not the derivative at a switching point; both one-sided
+                # difference quotients agree with the gradient handle
+                out.append(Verdict("ok", "", repr(g), repr(d), repr([q for _n, q, _t in r["sides"]]), tags + ["D-skipped"], True))
+            elif not same_double(g, d, tol):
                 out.append(Verdict("violation",
                                    f"{obj}: gradient handle {gn} returns {g!r} but d/dm of {ln} is "
                                    f"{d!r} at data={x} param={p} model={m}"
@@ -348,12 +418,20 @@ class SymbolicDerivative(Family):
                     sym = _json.loads(pr.stdout)
             except Exception:  # noqa: BLE001
                 sym = [None] * len(cases)
-        models = drive(expr_requests([(grad_name(c["obj"]), False, c["x"], c["p"], c["m"]) for c in cases]))
+        models2 = drive(expr_requests([it for c in cases for it in
+                                       ((grad_name(c["obj"]), False, c["x"], c["p"], c["m"]),
+                                        (loss_name(c["obj"]), False, c["x"], c["p"], c["m"]))]))
+        models, losses = models2[0::2], models2[1::2]
         out = []
-        for c, sv, mo in zip(cases, sym, models):
+        for c, sv, mo, lo in zip(cases, sym, models, losses):
             tags = [c["obj"]]
             if sv is None or mo is None:
                 out.append(Verdict("ok", "", None, None, None, tags + ["sympy-unavailable"], False))
+                continue
+            if lo is not None and len(lo[0]) > 2 and lo[0][2]:
+                # a switching point of the loss as written (|·| / sign / sqrt at 0, a comparison at equality): a piecewise
+                # symbolic derivative says nothing there; the derivative grid decides with one-sided difference quotients
+                out.append(Verdict("ok", "", None, None, sv, tags + ["switching-point"], False))
                 continue
             d = float(sv)
             impl = call(py_handle, grad_name(c["obj"]), c["x"], 0.0 if c["p"] is None else c["p"], c["m"])
@@ -394,26 +472,45 @@ class TablePairing(Family):
                     warnings.simplefilter("ignore")
                     fh, gh, lb = fg_setup.setup(Objectives[obj], None, p)
                 names, bound = [], False
-                for h in (fh, gh):
+                xs, ms = np.array([1.0, 2.0, 0.5, 3.0]), np.array([0.5, 1.5, 3.0, 0.25])
+                cands = [(n, f) for n, f in vars(handles).items()
+                         if inspect.isfunction(f) and f.__module__ == handles.__name__ and not n.startswith("_")
+                         and len(inspect.signature(f).parameters) in (2, 3)]
+                for h, own in zip((fh, gh), (loss_name(obj), grad_name(obj))):
                     if isinstance(h, functools.partial):
                         base = h.func
-                        pname = list(inspect.signature(base).parameters)[2]
-                        if h.args or h.keywords != {pname: p}:
+                        hp = handle_param(base)
+                        if hp is None or h.args or h.keywords != {hp.name: p}:
                             raise AssertionError(f"partial binds {h.keywords}")
                         bound = True
-                    else:
+                    elif getattr(handles, getattr(h, "__name__", ""), None) is h:
                         base = h
                         if has_param(base):
                             raise AssertionError("parameter not bound")
+                    else:
+                        # a lambda / closure: which handle of handles.py it computes is decided by what it returns
+                        # (the objective's own handle is tried first)
+                        base = None
+                        with np.errstate(all="ignore"):
+                            got = np.asarray(h(xs, ms))
+                            for n, f in sorted(cands, key=lambda nf: nf[0] != own):
+                                if has_param(f) and p is None:
+                                    continue
+                                want = np.asarray(call_handle(f, xs, ms, p))
+                                if want.shape == got.shape and np.array_equal(want, got):
+                                    base = f
+                                    break
+                        if base is None:
+                            raise AssertionError("the returned callable computes none of the handles of handles.py")
+                        bound = bound or has_param(base)
                     if getattr(handles, base.__name__, None) is not base:
                         raise AssertionError("not a handle of handles.py")
                     names.append(base.__name__)
                 # the returned callables really are those handles
-                xs, ms = np.array([1.0, 2.0]), np.array([0.5, 1.5])
                 with np.errstate(all="ignore"):
                     for h, n in zip((fh, gh), names):
                         base = getattr(handles, n)
-                        want = base(xs, ms, p) if has_param(base) else base(xs, ms)
+                        want = call_handle(base, xs, ms, p)
                         if not np.array_equal(np.asarray(h(xs, ms)), np.asarray(want)):
                             raise AssertionError("returned handle computes something else")
                 return {"fn": names[0], "grad": names[1], "lower": jnum(float(lb)), "hasParam": bound}
@@ -484,7 +581,10 @@ def to_float_list(vals):
 
 
 def mk_k(K):
-    return gen.mk_ktensor(ttb, to_float_list(K["weights"]), K["factors"])
+    factors = K["factors"]
+    if any(isinstance(e, str) for fm in factors for row in fm for e in row):   # dyadic entries "n/d"
+        factors = [[to_float_list(row) for row in fm] for fm in factors]
+    return gen.mk_ktensor(ttb, to_float_list(K["weights"]), factors)
 
 
 def fg_canon(res, wantF, wantG):
@@ -900,7 +1000,7 @@ class GcpOptMask(Family):
     replaced by a stand-in that evaluates the objective and gradient once at the initial guess; what it is
     handed must be the weighted objective and its exact partial derivatives, whatever the layout of the mask."""
     name = "gcp_opt_mask"
-    theorems = ("C12_objective_sum", "C12_gradient_is_partial_derivative")
+    theorems = ("C12_objective_sum", "C12_gradient_is_partial_derivative", "C12_evaluate_mask")
 
     def gen(self, rng, tier):
         out = []
@@ -987,6 +1087,15 @@ class GcpOptMask(Family):
                 out.append(Verdict("corr", "gcp_opt changed a signed one-hot initial guess while normalising", impl, mo, None, tags))
                 continue
             spec = jnum(exact_objective(c["K"], c["X"]["shape"], rq["X"]["data"], c["W"]["data"], c["handle"]))
+            if c["wk"] == "mask":
+                # a 0/1 mask (ndarray or tensor): the loss summed over the unmasked entries only (C12_evaluate_mask)
+                f0 = STANDINS[c["handle"]][0]
+                only = sum((f0(Fraction(rq["X"]["data"][idx]), kget(c["K"], i))
+                            for idx, i in enumerate(gen.all_subs(c["X"]["shape"])) if c["W"]["data"][idx] != 0), Fraction(0))
+                if not deep_eq(spec, jnum(only)):
+                    out.append(Verdict("corr", "masked sum and weighted sum of the specification differ", spec, jnum(only), None, tags))
+                    continue
+                tags.append("masked-sum")
             if not deep_eq(r["F"], spec) or not deep_eq(r["final_f"], spec):
                 out.append(Verdict("violation", f"the objective handed to the optimiser, {r['F']}, is not the sum over all "
                                                 f"subscripts i of w[i]*f(x[i], m[i]) = {spec} {where}", impl, mo, spec, tags))
@@ -1239,6 +1348,370 @@ class FullSample(Family):
         return out
 
 
+# ----------------------------------------------------------------------------
+# the sampled estimator with arbitrary weights and the correction range; masks
+# ----------------------------------------------------------------------------
+def unit_model(K):
+    return {"weights": [1] * len(K["weights"]), "factors": K["factors"]}
+
+
+def comp_except(K, k, r, i):
+    t = Fraction(1)
+    for n, ik in enumerate(i):
+        if n != k:
+            t *= Fraction(K["factors"][n][ik][r])
+    return t
+
+
+def sampled_spec(K, subs, xvals, w, crng, handle, wantF, wantG):
+    """Σ_s w_s·term_s and its partial derivatives, from the definition (exact rationals).  `K` has unit weights."""
+    f, g = STANDINS[handle]
+    cset = set(crng or [])
+    R = len(K["weights"])
+    ms = [kget(K, i) for i in subs]
+
+    def term(h, s):
+        x, m = Fraction(xvals[s]), ms[s]
+        return h(x, m) - h(Fraction(0), m) if s in cset else h(x, m)
+    F = sum((Fraction(w[s]) * term(f, s) for s in range(len(subs))), Fraction(0)) if wantF else None
+    G = None
+    if wantG:
+        G = []
+        for k, fm in enumerate(K["factors"]):
+            Gk = [[Fraction(0)] * R for _ in fm]
+            for s, i in enumerate(subs):
+                y = Fraction(w[s]) * term(g, s)
+                for r in range(R):
+                    Gk[i[k]][r] += y * comp_except(K, k, r, i)
+            G.append(Gk)
+    return {"F": None if F is None else jnum(F), "G": None if G is None else jval(G)}
+
+
+CRNG_KINDS = ["none", "empty", "partial", "full", "repeats"]
+
+
+class EstimateWeighted(Family):
+    """fg_est.estimate with ARBITRARY sample weights, repeated samples and the correction range of the
+    semi-stratified sampler: implementation == proved model == the specification executed in Lean
+    (Spec/GcpSampled.lean) == the defining sums evaluated here; every gradient entry of every mode, and the
+    exact stencil of the implementation's own objective for one entry per mode."""
+    name = "estimate_weighted"
+    theorems = ("C12_estimate_weighted", "C12_estimate_crng", "C12_estimate_weighted_is_partial_derivative",
+                "C12_estimate_ignores_model_weights")
+
+    def gen(self, rng, tier):
+        out = []
+        n = 70 if tier == "quick" else 700
+        for j in range(n):
+            shape, K = gen_model(rng, tier)
+            nmax = 8 if tier == "quick" else 12
+            ns = rng.choice([1, 2, 3, rng.randint(2, nmax), rng.randint(2, nmax)])
+            subs = [[rng.randrange(s) for s in shape] for _ in range(ns)]
+            if ns >= 2 and j % 3 != 0:          # repeated subscripts, adjacent and far apart
+                subs[-1] = list(subs[0])
+                if ns >= 4 and rng.random() < 0.5:
+                    subs[2] = list(subs[1])
+            wk = ["ones", "ints", "halves", "mask", "zeros", "neg"][j % 6]
+            if wk == "zeros":
+                w = [0] * ns
+            elif wk == "neg":
+                w = [-rng.randint(1, 4) for _ in range(ns)]
+            else:
+                w = frac_w(rng, ns, wk)
+            ck = CRNG_KINDS[(j // 2) % len(CRNG_KINDS)]
+            if ck == "none":
+                crng = None
+            elif ck == "empty":
+                crng = []
+            elif ck == "full":
+                crng = list(range(ns))
+            elif ck == "partial":
+                crng = sorted(rng.sample(range(ns), rng.randint(1, max(1, ns - 1)))) if ns > 1 else [0]
+                if len(crng) == ns and ns > 1:
+                    crng = crng[:-1]
+            else:
+                base = [rng.randrange(ns) for _ in range(rng.randint(1, 3))]
+                crng = base + [base[0]]
+            wantF, wantG = [(True, True), (True, True), (True, False), (False, True)][j % 4]
+            unit = all(x == 1 for x in K["weights"])
+            out.append({"K": K, "subs": subs, "ncols": len(shape), "xvals": gen.int_values(rng, ns, -4, 4), "w": w,
+                        "wk": wk, "crng": crng, "ck": ck, "handle": list(STANDINS)[j % 3], "wantF": wantF, "wantG": wantG,
+                        "lambda_check": bool(unit and rng.random() < 0.5),
+                        "probes": [[k, rng.randrange(shape[k]), rng.randrange(len(K["weights"]))] for k in range(len(shape))],
+                        "lv": rng.choice(VEC_LAYOUTS)})
+        return out
+
+    @staticmethod
+    def _impl(c, K=None, wantF=None, wantG=None):
+        K = K or c["K"]
+        wantF = c["wantF"] if wantF is None else wantF
+        wantG = c["wantG"] if wantG is None else wantG
+        f, g = pick(c["handle"], wantF, wantG)
+        subs = np.array(c["subs"], dtype=int).reshape(len(c["subs"]), c["ncols"])
+        crng = None if c["crng"] is None else lay(np.array(c["crng"], dtype=int), c["lv"])
+        xv = lay(np.array(to_float_list(c["xvals"])), c["lv"])
+        w = lay(np.array(to_float_list(c["w"])), c["lv"])
+        w0, xv0 = w.copy(), xv.copy()
+        with warnings.catch_warnings():
+            warnings.simplefilter("ignore")
+            res = fg_est.estimate(mk_k(K), subs, xv, w, f, g, c["lambda_check"], crng)
+        if not (np.array_equal(w, w0) and np.array_equal(xv, xv0)):
+            raise AssertionError("estimate changed its weight / value vectors")
+        return fg_canon(res, wantF, wantG)
+
+    def evaluate(self, cases):
+        impls = [call(self._impl, c) for c in cases]
+        reqs = []
+        for c in cases:
+            base = {"subs": c["subs"], "xvals": c["xvals"], "w": c["w"], "handle": c["handle"], "wantF": c["wantF"],
+                    "wantG": c["wantG"], "crng": c["crng"]}
+            reqs.append({"op": "gcp_estimate", "K": c["K"], **base})
+            reqs.append({"op": "gcp_sampled_spec", "K": unit_model(c["K"]), **base})
+        models = drive(reqs)
+        out = []
+        for i, (c, impl) in enumerate(zip(cases, impls)):
+            mo, lean_spec = models[2 * i], models[2 * i + 1]
+            N = c["ncols"]
+            unit = all(x == 1 for x in c["K"]["weights"])
+            tags = [f"N{N}", f"n{min(len(c['subs']), 9)}", "w:" + c["wk"], "crng:" + c["ck"],
+                    "unitλ" if unit else "λ≠1(ignored)", ("F" if c["wantF"] else "") + ("G" if c["wantG"] else ""),
+                    "repeats" if len({tuple(t) for t in c["subs"]}) < len(c["subs"]) else "distinct"]
+            if "ok" not in impl:
+                out.append(Verdict("violation", f"fg_est.estimate raised {impl.get('exc')}: {impl.get('msg')} on in-range "
+                                                f"samples", impl, mo, lean_spec, tags))
+                continue
+            spec = sampled_spec(unit_model(c["K"]), c["subs"], c["xvals"], c["w"], c["crng"], c["handle"],
+                                c["wantF"], c["wantG"])
+            if not deep_eq(spec, lean_spec):
+                out.append(Verdict("corr", "the specification executed in Lean differs from the defining sums", spec,
+                                   lean_spec, spec, tags))
+                continue
+            if not deep_eq(impl["ok"], spec):
+                what = "Σ_s w_s·(f(x_s, m_s) − [s ∈ crng]·f(0, m_s))" if not deep_eq(impl["ok"]["F"], spec["F"]) else \
+                    "Σ_s w_s·(g(x_s, m_s) − [s ∈ crng]·g(0, m_s))·∂m_s/∂A"
+                out.append(Verdict("violation", f"fg_est.estimate does not return {what} (weights {c['wk']}, correction "
+                                                f"range {c['ck']})", impl, mo, spec, tags))
+                continue
+            if not deep_eq(impl, mo):
+                out.append(Verdict("violation", "fg_est.estimate differs from the (proved) model", impl, mo, spec, tags))
+                continue
+            v = Verdict("ok", "", impl, mo, spec, tags, True)
+            # the gradient entries are the exact partial derivatives of the implementation's own sampled objective
+            # (a polynomial of degree <= 3 in one factor entry: the 5-point stencil with step 1 is exact)
+            if c["wantG"]:
+                for (k, a, r) in c["probes"]:
+                    vals = []
+                    for dt in (2, 1, -1, -2):
+                        K2 = {"weights": c["K"]["weights"], "factors": [[list(row) for row in fm] for fm in c["K"]["factors"]]}
+                        K2["factors"][k][a][r] += dt
+                        o = call(self._impl, c, K2, True, False)
+                        vals.append(Fraction(o["ok"]["F"]) if "ok" in o else None)
+                    if None in vals:
+                        continue
+                    d = (-vals[0] + 8 * vals[1] - 8 * vals[2] + vals[3]) / 12
+                    got = impl["ok"]["G"][k][a][r]
+                    if not deep_eq(got, jnum(d)):
+                        v = Verdict("violation", f"sampled gradient entry G[{k}][{a},{r}] = {got} is not the partial "
+                                                 f"derivative {d} of the sampled objective", impl, mo, jnum(d), tags + ["probe"])
+                        break
+            out.append(v)
+        return out
+
+    def shrink(self, case):
+        c = case
+        ns = len(c["subs"])
+        for i in range(ns):
+            if ns <= 1:
+                break
+            c2 = {**c, "subs": c["subs"][:i] + c["subs"][i + 1:], "xvals": c["xvals"][:i] + c["xvals"][i + 1:],
+                  "w": c["w"][:i] + c["w"][i + 1:]}
+            if c["crng"] is not None:
+                c2["crng"] = [j - (1 if j > i else 0) for j in c["crng"] if j != i]
+            yield c2
+        if c["crng"]:
+            yield {**c, "crng": None, "ck": "none"}
+        R = len(c["K"]["weights"])
+        if R > 1:
+            K2 = {"weights": c["K"]["weights"][:-1], "factors": [[row[:-1] for row in f] for f in c["K"]["factors"]]}
+            yield {**c, "K": K2, "probes": [[k, a, min(r, R - 2)] for (k, a, r) in c["probes"]]}
+
+
+MASK_KINDS = ["all", "none", "some", "some", "single"]
+BUILTIN_FOR_MASK = ["GAUSSIAN", "POISSON", "GAMMA", "RAYLEIGH", "BERNOULLI_LOGIT"]
+
+
+class EvaluateMask(Family):
+    """fg.evaluate with a 0/1 mask (ndarray of floats / ints / booleans, any layout): objective and gradients are
+    those of the loss summed over the unmasked entries only — implementation == proved model == the masked sum
+    executed in Lean == the defining sums; every entry of every mode's gradient against the analytic partial
+    derivative of the masked objective.  Also with the real built-in handles (doubles, tolerance)."""
+    name = "evaluate_mask"
+    theorems = ("C12_evaluate_mask", "C12_evaluate_mask_objective")
+
+    def gen(self, rng, tier):
+        out = []
+        n = 60 if tier == "quick" else 600
+        for j in range(n):
+            shape, K = gen_model(rng, tier)
+            cells = gen.numel(shape)
+            mk = MASK_KINDS[j % len(MASK_KINDS)]
+            if mk == "all":
+                m = [1] * cells
+            elif mk == "none":
+                m = [0] * cells
+            elif mk == "single":
+                m = [0] * cells
+                m[rng.randrange(cells)] = 1
+            else:
+                m = mask_values(rng, cells)
+            builtin = BUILTIN_FOR_MASK[(j // 7) % len(BUILTIN_FOR_MASK)] if j % 7 == 3 else None
+            c = {"K": K, "X": {"shape": shape, "data": gen.dense_data(rng, shape, 0.25)}, "W": {"shape": shape, "data": m},
+                 "mk": mk, "handle": list(STANDINS)[j % 3], "lw": rng.choice(LAYOUTS),
+                 "dtype": ["float", "bool", "int"][(j // 3) % 3], "sparseX": rng.random() < 0.2,
+                 "wantF": j % 4 != 3, "wantG": j % 4 != 2, "builtin": builtin}
+            if builtin:
+                # model values inside every loss's domain: positive factor entries and weights; data suited to the loss
+                R = len(K["weights"])
+                c["K"] = {"weights": [rng.choice([1, 2, jnum(Fraction(1, 2))]) for _ in range(R)],
+                          "factors": [[[rng.choice([1, 2, jnum(Fraction(1, 2)), jnum(Fraction(3, 2))]) for _ in range(R)]
+                                       for _ in range(s)] for s in shape]}
+                c["X"] = {"shape": shape, "data": [rng.choice([0, 1]) if builtin == "BERNOULLI_LOGIT" else rng.randint(0, 4)
+                                                   for _ in range(cells)]}
+                c["wantF"] = c["wantG"] = True
+                c["sparseX"] = False
+            out.append(c)
+        return out
+
+    @staticmethod
+    def _mask_array(c):
+        W = nd_from_F(c["W"]["shape"], c["W"]["data"], c["lw"])
+        if c["dtype"] == "bool":
+            W = lay(W.astype(bool), c["lw"])
+        elif c["dtype"] == "int":
+            W = lay(W.astype(np.int64), c["lw"])
+        return W
+
+    def _impl(self, c):
+        if c["builtin"]:
+            with warnings.catch_warnings():
+                warnings.simplefilter("ignore")
+                f, g, _lb = fg_setup.setup(Objectives[c["builtin"]], None, None)
+        else:
+            f, g = pick(c["handle"], c["wantF"], c["wantG"])
+        X = gen.mk_tensor(ttb, c["X"]["shape"], c["X"]["data"])
+        if c.get("sparseX"):
+            X = X.to_sptensor() if hasattr(X, "to_sptensor") else ttb.sptensor.from_tensor_type(X)
+        W = self._mask_array(c)
+        W0 = W.copy()
+        with warnings.catch_warnings():
+            warnings.simplefilter("ignore")
+            res = fg.evaluate(mk_k(c["K"]), X, W, f, g)
+        if not np.array_equal(W, W0):
+            raise AssertionError("evaluate changed the mask")
+        if c["builtin"]:
+            F, G = res
+            return {"F": float(F), "G": [np.asarray(gk, dtype=float).tolist() for gk in G]}
+        return fg_canon(res, c["wantF"], c["wantG"])
+
+    @staticmethod
+    def _masked_spec(c, f, g, num):
+        """(Σ over unmasked i of f(x_i, m_i), analytic partial derivatives of that sum); `num` converts exact values"""
+        K, shape = c["K"], c["X"]["shape"]
+        R = len(K["weights"])
+        F = num(0)
+        G = [[[num(0)] * R for _ in fm] for fm in K["factors"]]
+        kept = []
+        for idx, i in enumerate(gen.all_subs(shape)):
+            if c["W"]["data"][idx] == 0:
+                continue
+            kept.append(list(i))
+            x, m = num(Fraction(c["X"]["data"][idx])), num(kget(K, i))
+            F += f(x, m)
+            y = g(x, m)
+            for k in range(len(shape)):
+                for r in range(R):
+                    G[k][i[k]][r] += y * num(Fraction(K["weights"][r]) * comp_except(K, k, r, i))
+        return F, G, kept
+
+    def evaluate(self, cases):
+        impls = [call(self._impl, c) for c in cases]
+        reqs = []
+        for c in cases:
+            reqs.append({"op": "gcp_evaluate", "K": c["K"], "X": c["X"], "W": c["W"], "handle": c["handle"],
+                         "wantF": c["wantF"], "wantG": c["wantG"]})
+            reqs.append({"op": "gcp_masked_spec", "K": c["K"], "X": c["X"], "W": c["W"], "handle": c["handle"]})
+        models = drive(reqs)
+        out = []
+        for i, (c, impl) in enumerate(zip(cases, impls)):
+            mo, lean_spec = models[2 * i], models[2 * i + 1]
+            lam = [Fraction(x) for x in c["K"]["weights"]]
+            tags = [f"N{len(c['X']['shape'])}", "mask:" + c["mk"], "dtype:" + c["dtype"], f"w{c['lw']}",
+                    "unitλ" if all(x == 1 for x in lam) else "λ≠1", "sparseX" if c.get("sparseX") else "denseX",
+                    ("F" if c["wantF"] else "") + ("G" if c["wantG"] else "")]
+            nt = nontriv(c["K"], c["X"]["data"]) and c["mk"] != "none"
+            if "ok" not in impl:
+                out.append(Verdict("violation", f"fg.evaluate raised {impl.get('exc')}: {impl.get('msg')} for a "
+                                                f"{c['dtype']} 0/1 mask", impl, mo, None, tags))
+                continue
+            if c["builtin"]:
+                # doubles: compare with the masked sums of the real handles, relative tolerance
+                tags.append("builtin:" + c["builtin"])
+                fh = getattr(handles, loss_name(c["builtin"]))
+                gh = getattr(handles, grad_name(c["builtin"]))
+
+                def f1(x, m, fh=fh):
+                    return float(fh(np.array([x]), np.array([m]))[0])
+
+                def g1(x, m, gh=gh):
+                    return float(gh(np.array([x]), np.array([m]))[0])
+                F, G, _kept = self._masked_spec(c, f1, g1, float)
+                flat = [(impl["ok"]["F"], F)] + [(a, b) for gi, gs in zip(impl["ok"]["G"], G)
+                                                 for ri, rs in zip(gi, gs) for a, b in zip(ri, rs)]
+                scale = 1.0 + max(abs(b) for _a, b in flat)
+                bad = [(a, b) for a, b in flat if not (abs(a - b) <= 1e-9 * scale)]
+                if bad:
+                    out.append(Verdict("violation", f"{c['builtin']}: with a 0/1 mask the objective / gradients are not those "
+                                                    f"of the loss summed over the unmasked entries ({bad[0][0]!r} vs "
+                                                    f"{bad[0][1]!r})", jval(impl["ok"]), None, jval({"F": F, "G": G}), tags))
+                else:
+                    out.append(Verdict("ok", "", jval(impl["ok"]), None, jval({"F": F, "G": G}), tags, nt))
+                continue
+            f, g = STANDINS[c["handle"]]
+            F, G, kept = self._masked_spec(c, f, g, Fraction)
+            spec = {"F": jnum(F) if c["wantF"] else None, "G": jval(G) if c["wantG"] else None}
+            if not (lean_spec["isMask"] and deep_eq(lean_spec["F"], jnum(F)) and lean_spec["unmasked"] == kept):
+                out.append(Verdict("corr", "the masked objective executed in Lean differs from the defining sum",
+                                   jnum(F), lean_spec, spec, tags))
+                continue
+            if not deep_eq(impl["ok"], spec):
+                what = "the objective is not the loss summed over the unmasked entries only" \
+                    if not deep_eq(impl["ok"]["F"], spec["F"]) else \
+                    "a gradient entry is not the partial derivative of the loss summed over the unmasked entries"
+                out.append(Verdict("violation", f"0/1 mask ({c['mk']}, {c['dtype']}, layout {c['lw']}): {what}", impl, mo,
+                                   spec, tags, nt))
+                continue
+            if not deep_eq(impl, mo):
+                out.append(Verdict("violation", "fg.evaluate differs from the (proved) model", impl, mo, spec, tags, nt))
+                continue
+            out.append(Verdict("ok", "", impl, mo, spec, tags, nt))
+        return out
+
+    def shrink(self, case):
+        c = case
+        if c["builtin"]:
+            return
+        R = len(c["K"]["weights"])
+        if R > 1:
+            yield {**c, "K": {"weights": c["K"]["weights"][:-1],
+                              "factors": [[row[:-1] for row in f] for f in c["K"]["factors"]]}}
+        if c["lw"] != "F":
+            yield {**c, "lw": "F"}
+        if c["dtype"] != "float":
+            yield {**c, "dtype": "float"}
+        if c.get("sparseX"):
+            yield {**c, "sparseX": False}
+
+
 def families():
     return [HandleFidelity(), DerivativeGrid(), SymbolicDerivative(), TablePairing(), EvaluateCorr(), EvaluateLayouts(),
-            GcpOptMask(), EstimateLayouts(), AllModes(), EstimateCorr(), FullSample()]
+            GcpOptMask(), EstimateLayouts(), AllModes(), EstimateCorr(), FullSample(), EstimateWeighted(), EvaluateMask()]
